@@ -14,6 +14,7 @@ package c22
 import (
 	"crypto/md5"
 	"crypto/sha256"
+	"encoding/hex"
 	"fmt"
 	"hash"
 	"math"
@@ -50,10 +51,16 @@ type node struct {
 	Weight int    `json:"weight"`
 }
 
-func genNodes(r *rand.Rand, n int) (nodes []node, style string) {
-	ls := r.Intn(5)
+func genNodes(r *rand.Rand, n int, forceLabelStyle int) (nodes []node, style string) {
+	ls := r.Intn(7)
+	if forceLabelStyle >= 0 {
+		ls = forceLabelStyle
+	}
+	fqdnPrefix := [...]string{"kraken-origin-", "kraken-build-index-", "tracker-"}[r.Intn(3)]
+	fqdnDomain := [...]string{".prod.dc1.example.internal", ".kraken.prod.dca11.example.internal", ".staging.phx2.corp.example.com"}[r.Intn(3)]
+	fqdnHost := fqdnPrefix + fmt.Sprintf("%03d", r.Intn(1000)) + fqdnDomain
 	ws := r.Intn(4)
-	style = [...]string{"host:port", "volume-path", "small-int", "near-identical", "random-string"}[ls] + "/" +
+	style = [...]string{"host:port", "volume-path", "small-int", "near-identical", "random-string", "fqdn:port-common-prefix", "fqdn:port-differing-in-last-digits"}[ls] + "/" +
 		[...]string{"equal-100", "uniform-1..500", "extremes-1-or-500", "near-equal"}[ws]
 	seen := map[string]bool{}
 	for len(nodes) < n {
@@ -69,6 +76,12 @@ func genNodes(r *rand.Rand, n int) (nodes []node, style string) {
 			l = fmt.Sprintf("kraken-origin%02d-dca1:15002", r.Intn(40))
 		case 4:
 			l = gen.PathSegment(r) + gen.Hex(r, r.Intn(6))
+		case 5:
+			// 30-60 characters, long common prefix and suffix
+			l = fmt.Sprintf("%s%03d%s:15002", fqdnPrefix, r.Intn(1000), fqdnDomain)
+		case 6:
+			// one host name, addresses differ only in the last one or two characters
+			l = fmt.Sprintf("%s:150%02d", fqdnHost, r.Intn(100))
 		}
 		if seen[l] {
 			continue
@@ -88,6 +101,25 @@ func genNodes(r *rand.Rand, n int) (nodes []node, style string) {
 		nodes = append(nodes, node{l, w})
 	}
 	return nodes, style
+}
+
+// independentScore restates the weighted rendezvous score without going through
+// the node: it hashes the complete key bytes followed by the complete label
+// itself and only reuses the exported hash-to-float conversion.
+func independentScore(p pairing, key, label string, weight int) float64 {
+	kb, err := hex.DecodeString(key)
+	if err != nil {
+		return math.NaN()
+	}
+	h := p.hash()
+	h.Write(kb)
+	h.Write([]byte(label))
+	sum := h.Sum(nil)
+	max := make([]byte, len(sum))
+	for i := range max {
+		max[i] = 0xFF
+	}
+	return -float64(weight) / math.Log(p.score(sum, max, h))
 }
 
 func build(p pairing, nodes []node) *hrw.RendezvousHash {
@@ -258,12 +290,18 @@ func runTask(tk *task) *result {
 			continue
 		}
 		scores := make([]float64, n)
+		indep := make([]float64, n)
 		tie := false
 		for i, nd := range got {
 			if tk.p.rehash && gen.MurmurLow53Zero(k, nd.Label) {
 				res.rehashHits++ // this (key, node) drives UInt64ToFloat64 through its re-hash branch
 			}
 			scores[i] = nd.Score(k)
+			indep[i] = independentScore(tk.p, k, nd.Label, nd.Weight)
+			if i > 0 && indep[i-1] < indep[i] {
+				res.add("not-sorted-by-score-of-the-full-key-and-label/"+tk.p.name,
+					base(map[string]interface{}{"key": k, "key_hex_digits": len(k), "got": l, "independent_scores": indep[:i+1]}))
+			}
 			if math.IsNaN(scores[i]) {
 				res.add("nan-score-for-valid-hex-key/"+tk.p.name, base(map[string]interface{}{"key": k, "node": nd.Label}))
 			}
@@ -502,9 +540,9 @@ func livePass(tk *task, r *rand.Rand, res *result) {
 
 func TestC22(t *testing.T) {
 	run := ev.Start(t, "C22", "exploration",
-		"PRNG-generated weighted node sets (1-16 nodes, plus sets of 20-30 nodes on sampled keys; 5 label styles x 4 weight styles, weights 1-500) for each hash/score pairing "+
+		"PRNG-generated weighted node sets (1-16 nodes, plus sets of 20-30 nodes on sampled keys; 7 label styles incl. 30-60 character FQDN:port labels with long common prefixes or differing only in the last digits, x 4 weight styles, weights 1-500) for each hash/score pairing "+
 			"(murmur3+UInt64ToFloat64 as shipped in ring and CAStore; sha256/md5/murmur3+BigIntToFloat64). Keys: for the shipped pairing ALL 65536 four-hex shard ids "+
-			"+ all 256 upper- and lower-case two-hex keys + random even-length hex keys up to 128 digits; for the other pairings a PRNG sample of those. "+
+			"+ all 256 upper- and lower-case two-hex keys + random even-length hex keys of 2-600 digits (dense around 180-260); for the other pairings a PRNG sample of those. "+
 			"Each node set is populated in 6 insertion orders/histories; every node is removed and re-added, and new nodes are added. "+
 			"For murmur3 pairings crafted keys (murmur3 inverted) whose hash with one node's label has 53 zero low bits drive the score through its re-hash branch. "+
 			"One long-lived hash per key chunk goes through host replacements (both orders, and back), re-weighting, single adds/removes with same-key lookups right before and after, compared with a fresh hash. "+
@@ -512,7 +550,7 @@ func TestC22(t *testing.T) {
 	defer run.Finish()
 	run.Assume("keys are valid even-length hex strings (Score returns NaN for anything else; such keys are outside the statement)")
 	run.Assume("weights are positive and labels unique (zero weights / duplicate labels are configuration errors, DESIGN 3.40)")
-	run.Assume("'sorted by descending score' is judged with RendezvousHashNode.Score itself: the list must be non-increasing in Score")
+	run.Assume("'sorted by descending score' is judged twice: with RendezvousHashNode.Score itself and with a restatement that hashes the complete key bytes and the complete label itself and reuses only the exported hash-to-float conversion (UInt64ToFloat64 / BigIntToFloat64)")
 
 	// key spaces
 	var exhaustive []string
@@ -527,10 +565,10 @@ func TestC22(t *testing.T) {
 	nShipped := run.N(4, 24)
 	nOther := run.N(3, 18)
 	stride := run.N(4, 1)
-	nLong := run.N(512, 8192)
+	nLong := run.N(320, 8192)
 	nSample := run.N(3072, 12288)
-	nCrafted := run.N(6, 24)  // crafted re-hash keys per node
-	nLive := run.N(400, 3000) // membership-change steps on a long-lived hash, per key chunk
+	nCrafted := run.N(4, 24)  // crafted re-hash keys per node
+	nLive := run.N(300, 3000) // membership-change steps on a long-lived hash, per key chunk
 	craftedKeys := 0
 	const chunks = 4
 
@@ -548,15 +586,19 @@ func TestC22(t *testing.T) {
 		r := run.Rand(fmt.Sprintf("case-%s-%d-%v", p.name, ci, big))
 		// sizes cover 1..16, rotated by the seed
 		n := 1 + (ci*5+int(run.Seed()))%16
+		forceStyle := -1
+		if !big && p.exhaustive && (ci == 1 || ci == 2) {
+			forceStyle = 4 + ci // the two FQDN:port styles are always present, also in the quick tier
+		}
 		if big {
 			// well above 12 elements, where sort.Sort leaves its small-slice path; sampled keys
 			n = 20 + (ci*3+int(run.Seed()))%11
 			p.exhaustive = false
 		}
-		nodes, style := genNodes(r, n)
+		nodes, style := genNodes(r, n, forceStyle)
 		var newcomers []node
 		for len(newcomers) < 2 {
-			f, _ := genNodes(r, 1)
+			f, _ := genNodes(r, 1, -1)
 			f[0].Label = "new-" + f[0].Label
 			newcomers = append(newcomers, f[0])
 		}
@@ -580,7 +622,18 @@ func TestC22(t *testing.T) {
 			nl = nLong / 4
 		}
 		for i := 0; i < nl; i++ {
-			keys = append(keys, gen.Hex(r, 2*(1+r.Intn(64))))
+			// 2..600 hex digits: half up to 128 (digest-sized and shorter), a dense band
+			// around 180-260 digits, the rest anywhere
+			var digits int
+			switch x := r.Intn(20); {
+			case x < 10:
+				digits = 2 * (1 + r.Intn(64))
+			case x < 17:
+				digits = 180 + 2*r.Intn(41)
+			default:
+				digits = 2 * (1 + r.Intn(300))
+			}
+			keys = append(keys, gen.Hex(r, digits))
 		}
 		// crafted keys: murmur3-64(key||label) has its low 53 bits zero for one of the
 		// nodes (or a newcomer), so scoring takes UInt64ToFloat64's re-hash branch
